@@ -993,8 +993,8 @@ class ghf(wave_function):
         return jnp.linalg.det(
             jnp.hstack(
                 [
-                    wave_data["mo_coeff"][: self.norb].T @ walker_up,
-                    wave_data["mo_coeff"][self.norb :].T @ walker_dn,
+                    wave_data["mo_coeff"][: self.norb].T.conj() @ walker_up,
+                    wave_data["mo_coeff"][self.norb :].T.conj() @ walker_dn,
                 ]
             )
         )
@@ -1005,8 +1005,8 @@ class ghf(wave_function):
     ) -> jax.Array:
         overlap_mat = jnp.hstack(
             [
-                wave_data["mo_coeff"][: self.norb].T @ walker_up,
-                wave_data["mo_coeff"][self.norb :].T @ walker_dn,
+                wave_data["mo_coeff"][: self.norb].T.conj() @ walker_up,
+                wave_data["mo_coeff"][self.norb :].T.conj() @ walker_dn,
             ]
         )
         inv = jnp.linalg.inv(overlap_mat)
